@@ -347,8 +347,11 @@ def run_check(mod, tier, seed, replay=None, jobs=None):
     confirm_kinds = getattr(mod, 'CONFIRM_ALONE', ())
     if confirm_kinds and not replay:
         keep, redo = [], []
+        known0 = load_known()
         for spec, v in agg['violations']:
-            (redo if v['kind'] in confirm_kinds else keep).append((spec, v))
+            # (known findings are not worth a second run)
+            (redo if v['kind'] in confirm_kinds and
+             classify(prop, v, known0) is None else keep).append((spec, v))
         confirmed = []
         seen_specs = {}
         for spec, v in redo:
